@@ -190,6 +190,9 @@ var cidInit = Dict{
 			if len(lo) != len(hi) {
 				return intp.e(eRangecheck, "endcodespacerange: expected strings of equal length, got %d and %d", len(lo), len(hi))
 			}
+			if bytes.Compare(lo, hi) > 0 {
+				return intp.e(eRangecheck, "endcodespacerange: invalid range <%x> <%x>", lo, hi)
+			}
 			intp.cmapCodeSpaceRanges[i] = CodeSpaceRange{lo, hi}
 		}
 		intp.Stack = intp.Stack[:base]
